@@ -278,6 +278,12 @@ func (env *Env) field(x *Value, name string, n *Node) *Value {
 		return term(sel(e.comp(env.st, cn, arrSort(g.Sort)), idx), g.Sort, nil)
 	}
 	obj, path, _ := types.LookupFieldOrMethod(x.Type, true, env.fnPkg, name)
+	if obj == nil {
+		// contracts may name unexported fields of types from other packages
+		if tp := typePkg(x.Type); tp != nil {
+			obj, path, _ = types.LookupFieldOrMethod(x.Type, true, tp, name)
+		}
+	}
 	fv, ok := obj.(*types.Var)
 	if !ok || !fv.IsField() {
 		env.fail("type %v has no field %s (in %s)", x.Type, name, n)
@@ -479,6 +485,12 @@ func (env *Env) call(n *Node) *Value {
 	boolT := types.Typ[types.Bool]
 	intT := types.Typ[types.Int]
 	arg := func(i int) *Value { return env.eval(n.Kids[i]) }
+	if i := strings.LastIndex(n.Name, "."); i >= 0 {
+		// package-qualified predicate / spec function: names are global
+		if short := n.Name[i+1:]; e.ct.Preds[short] != nil || e.ct.Specs[short] != nil {
+			n = &Node{Op: "call", Name: short, Kids: n.Kids, Src: n.Src}
+		}
+	}
 	switch n.Name {
 	case "len":
 		x := arg(0)
@@ -825,8 +837,8 @@ func (env *Env) evalSplit(n *Node) []string {
 			out = append(out, implies(a, g))
 		}
 		return out
-	case n.Op == "call" && env.e().ct.Preds[n.Name] != nil:
-		pd := env.e().ct.Preds[n.Name]
+	case n.Op == "call" && env.e().ct.Preds[shortName(n.Name)] != nil:
+		pd := env.e().ct.Preds[shortName(n.Name)]
 		if len(pd.Params) != len(n.Kids) {
 			env.fail("pred %s expects %d arguments", n.Name, len(pd.Params))
 		}
